@@ -771,6 +771,56 @@ def run_count_case(ctx, bt, case, batch):
                              "none yet (now == 0)" if seq[k] is None else fmt_row(frows[seq[k]]), seq[:k + 1], g, e), case)
 
 
+def run_or_case(ctx, bt, rng, maxn):
+    """schedulers combined with `Or` (the documented way to combine run signals): every member is a scheduler in its own right - it
+    sees every call, whatever the other members answer - so the combination fires exactly when some member, evaluated on its own
+    over the same calls, fires"""
+    c1 = gen_count_case(ctx, rng, maxn)
+    c2 = gen_count_case(ctx, rng, maxn)
+    c3 = gen_count_case(ctx, rng, maxn)
+    members = [c1, c2] + ([c3] if rng.random() < 0.3 else [])
+    rng.shuffle(members)
+    rows = [tuple(r) for r in c1["rows"]]
+    for m in members:
+        m["rows"], m["unit"] = c1["rows"], c1["unit"]
+        if m["algo"] in ("RunOnDate", "RunAfterDate"):        # parameters drawn for another index: re-draw on this one
+            if m["algo"] == "RunOnDate":
+                m["params"] = {"dates": [date_param(rng, rng.choice(rows)) for _ in range(rng.choice([1, 2, 3]))]}
+            else:
+                m["params"] = {"date": date_param(rng, rng.choice(rows))}
+    _, fdata = full_index(bt, rows, c1["unit"])
+    fidx = fdata.index
+    calls = list(range(1, len(fidx)))
+    case = {"mode": "or", "members": [{"algo": m["algo"], "params": m["params"]} for m in members], "rows": c1["rows"], "unit": c1["unit"]}
+
+    def answers(algo):
+        s = bt.Strategy("s", [algo])
+        s.setup(fdata)
+        out = []
+        for c in calls:
+            s.update(fidx[c])
+            out.append(call(algo, s))
+        return out
+    try:
+        alone = [answers(make_count_algo(bt, m)) for m in members]
+        real = answers(bt.algos.Or([make_count_algo(bt, m) for m in members]))
+    except Exception as e:  # noqa
+        ctx.count("or:raised:" + type(e).__name__)
+        return
+    ctx.evaluations += 1
+    ctx.count("or:cases")
+    ctx.classes.add(("or", tuple(m["algo"] for m in members)))
+    if any(not isinstance(x, bool) for a in alone + [real] for x in a):
+        ctx.count("or:a-member-raised(not judged)")
+        return
+    for k in range(len(calls)):
+        want = any(a[k] for a in alone)
+        if real[k] != want:
+            ctx.violation("C12/Or:member-not-called-on-every-date", "Or(%s) on call %d (row %s) returned %r; the members on their own over the same calls answer %r"
+                          % ([m["algo"] + json.dumps(m["params"]) for m in members], k, fmt_row(frows_of(fidx)[calls[k]]), real[k], [a[k] for a in alone]), case)
+            return
+
+
 def run_count_backtest_case(ctx, bt, case, batch):
     rows = [tuple(r) for r in case["rows"]]
     algo = make_count_algo(bt, case)
@@ -941,6 +991,10 @@ def run_case(ctx, bt, case, batch):
         run_count_backtest_case(ctx, bt, case, batch)
     elif m == "calendar":
         run_calendar(ctx, batch)
+    elif m == "or":
+        import random as _r
+        for k in range(200):
+            run_or_case(ctx, bt, _r.Random(k), 24)       # regenerated: an Or case is cheap and deterministic in its generator state
     else:
         raise ValueError(m)
 
@@ -983,6 +1037,8 @@ def _run(ctx, bt, n_period, n_bt, n_ill, n_count, n_count_bt, calendar=True):
         case = gen_count_case(ctx, rng, maxn)
         ctx.sample({"count": {k: case[k] for k in ("algo", "params", "regime", "calls")}}, cap=3)
         run_count_case(ctx, bt, case, batch)
+    for i in range(max(1, n_count // 10)):
+        run_or_case(ctx, bt, rng, maxn)
     for i in range(n_count_bt):
         run_count_backtest_case(ctx, bt, gen_count_case(ctx, rng, maxn, backtest=True), batch)
     batch.flush()
